@@ -11,9 +11,12 @@
 (* the answer is the one an independent reader finds.                      *)
 (***************************************************************************)
 EXTENDS Naturals, TLC
+CONSTANT RemoteNameCap    \* TRUE: of a name in a string table in the target's memory at most a fixed number of bytes is fetched; FALSE: the rest of the table, as from a file
 CONSTANT TranslateVaddr   \* TRUE: in a file, DT_STRTAB (a virtual address) is translated through the PT_LOAD segment containing it;
                           \* FALSE: it is used as a file offset as it stands
-Elf == [bits64 : BOOLEAN,
+ElfAll == [bits64 : BOOLEAN,
+        src    : {"slice", "memory"},                  \* the image as a byte slice / file, or laid out in a process's memory and read through the memory reader
+        solen  : {"short", "long"},                    \* DT_SONAME string: a usual name, or one longer than any fixed bound a reader might think of (string tables have none)
         layout : {"identity", "shift_outside", "shift_inside"},   \* virtual address = file offset (+ a shift that puts DT_STRTAB, read as an offset, outside / inside the file)
         phdrs  : {"ok", "absent", "pastend"},
         phNote : {"ok", "absent", "range_bad", "other_note"},
@@ -23,6 +26,13 @@ Elf == [bits64 : BOOLEAN,
         text   : {"ok", "absent", "range_bad"},
         dyn    : {"ok", "absent", "unterminated"},     \* unterminated: no DT_NULL within the declared size - not a well-formed dynamic array
         soname : {"ok", "absent", "offset_bad"}]
+(* an image in memory is laid out by its PT_LOAD segments: the harness places the file's bytes at the module base, which is that
+   layout exactly when virtual addresses equal file offsets; the length of a string only matters where there is one *)
+InImage(e) == e.phdrs # "pastend" /\ e.shdrs # "pastend" /\ e.phNote # "range_bad" /\ e.secNote # "range_bad" /\ e.text # "range_bad" /\ e.soname # "offset_bad"
+(* ... and a range that leaves the image means, in memory, whatever happens to be mapped behind the module (a partly readable range
+   yields part of the data): memory and file are compared on images whose tables lie inside them, as the property does *)
+Elf == {e \in ElfAll : (e.src = "memory" => e.layout = "identity" /\ InImage(e)) /\ (e.solen = "long" => e.soname = "ok")}
+NameFits(e) == ~(RemoteNameCap /\ e.src = "memory" /\ e.solen = "long")      \* otherwise no NUL within what was fetched: an error value
 (* ---- strategies as steps ---- *)
 PhNoteId(e)  == e.phdrs = "ok" /\ e.phNote = "ok"
 SectionId(e) == e.shdrs = "ok" /\ e.strtab = "ok" /\ e.secNote = "ok"
@@ -31,12 +41,13 @@ BuildIdOutcome(e) == IF PhNoteId(e) THEN "ph" ELSE IF SectionId(e) THEN "section
 (* the program-header strategy: "next" = an error value, the section strategy is tried *)
 PhSonameReached(e) == e.phdrs = "ok" /\ e.dyn = "ok" /\ e.soname = "ok"
 PhSonameResult(e)  == IF ~PhSonameReached(e) THEN "next"
+                      ELSE IF ~NameFits(e) THEN "next"
                       ELSE IF e.layout = "identity" \/ TranslateVaddr THEN "ok"
                       ELSE IF e.layout = "shift_inside" THEN "other"      \* whatever bytes lie at that file offset, up to a NUL
                       ELSE "next"                                        \* beyond the end of the file: an error value
 (* the section strategy returns at the DT_SONAME entry, before it would reach the end of an unterminated array; the program-header
    strategy collects three entries over the whole array and fails on the entry it cannot decode *)
-SecSoname(e) == e.shdrs = "ok" /\ e.dyn \in {"ok", "unterminated"} /\ e.soname = "ok"
+SecSoname(e) == e.shdrs = "ok" /\ e.dyn \in {"ok", "unterminated"} /\ e.soname = "ok" /\ NameFits(e)
 SonameOutcome(e) == IF PhSonameResult(e) # "next" THEN PhSonameResult(e) ELSE IF SecSoname(e) THEN "ok" ELSE "err"
 
 VARIABLES elf, pc, bid, so
@@ -52,5 +63,8 @@ Spec == Init /\ [][Next]_vars
 Total == pc = "done" => bid \in {"ph", "section", "text", "err"} /\ so \in {"ok", "err", "other"}
 (* C14: what is returned as the SONAME is the image's DT_SONAME string, never some other bytes *)
 SonameIsTheImages == pc = "done" => so # "other"
+(* C14: reading the same module from target memory and from its file gives the same answers *)
+Twin(e) == [e EXCEPT !.src = IF e.src = "memory" THEN "slice" ELSE "memory"]
+SourceIndependent == pc = "done" /\ Twin(elf) \in Elf => bid = BuildIdOutcome(Twin(elf)) /\ so = SonameOutcome(Twin(elf))
 StepsAreFunction == pc = "done" => bid = BuildIdOutcome(elf) /\ so = SonameOutcome(elf)
 =============================================================================
